@@ -41,12 +41,13 @@ LEVEL_TEXT = (
     "The crash point is enumerated by statement index: run i of a batch kills the victim process immediately before its K(i)-th statement "
     "on a shared table (every backend effect is one or more such statements; 'before statement n+1' is 'after effect n'), so a batch of "
     "consecutive seeds sweeps the effect boundaries of each role; the evidence reports the distinct (role, table, statement kind, K) hit. "
-    "After the crash a surviving runner with the real recovery services runs for up to 240 virtual seconds; every invocation the client had "
+    "After the crash a surviving runner with the real recovery services runs for up to 130 virtual seconds; every invocation the client had "
     "been handed must become final and have run. Everything else (workload, interleaving) is seeded; the fault-free stratum checks the same "
     "scenarios without a crash."
 )
 LEVEL_NOTE = "Trusted: simkit crash semantics (threads unwound with a BaseException, later seam calls of the dead process refused, transactions rolled back), virtual-time recovery configuration (max_pending 3 s, dead-after 12 s, crons every minute), body probe. SQLite stack only (processes are real there); the in-memory family has no separate processes to kill."
 MINIMIZE = "schedule"
+MINIMIZE_BUDGET = 10  # one run costs up to a few seconds (130 virtual seconds of runner loop)
 RULE = (
     "one run = role (client-single / client-par / client-batch / runner) x workload (flat, tree, retry, keyed-reroute, stop) x crash step K x "
     "seeded schedule; non-trivial = the crash fired while at least one accepted invocation was not final; distinct = distinct "
@@ -59,7 +60,9 @@ ASSUMPTIONS = [
 ]
 REAL = ["Task.__call__ / parallelize / route_call(s)", "BaseRunner.run + _check_atomic_services", "ThreadRunner", "trigger loop + cron conditions + core tasks", "SQLite orchestrator / broker / state backend / trigger store", "SQLite engine"]
 STUBBED = ["process death (simulated SIGKILL)", "thread / process scheduling", "clock", "uuid4"]
-PROBES = ["crash_fired", "crash_with_inflight_work", "recovered_pending", "recovered_running", "popped_not_claimed_at_crash", "status_written_not_requeued_at_crash"]
+PROBES = ["crash_fired", "crash_with_inflight_work", "recovered_pending", "recovered_running", "popped_not_claimed_at_crash", "status_written_not_requeued_at_crash", "recovery_lost_race_with_live_owner", "worker_start_stalled", "stalled_workers_resumed_inside_recovery_run"]
+
+BUDGET_S = 130.0  # dead-after 12 s + next cron minute (<= 60 s) + execution, with margin
 
 CONF = {
     "max_pending_seconds": 3.0,
@@ -69,7 +72,7 @@ CONF = {
     "atomic_service_check_interval_minutes": 0.03,
     "recover_pending_invocations_cron": "* * * * *",
     "recover_running_invocations_cron": "* * * * *",
-    "runner_loop_sleep_time_sec": 0.2,
+    "runner_loop_sleep_time_sec": 0.5,
     "invocation_wait_results_sleep_time_sec": 0.05,
 }
 
@@ -77,10 +80,11 @@ CONF = {
 def plan(tier: str) -> list[dict]:
     q = tier == "quick"
     return [
-        {"stratum": "crash-client", "runs": 160 if q else 8000, "params": {"victim": "c"}, "chunk": 10 if q else 200},
-        {"stratum": "crash-runner", "runs": 320 if q else 16000, "params": {"victim": "r1"}, "chunk": 20 if q else 400},
-        {"stratum": "crash-recovery-task", "runs": 128 if q else 6000, "params": {"victim": "recovery"}, "chunk": 8 if q else 150},
-        {"stratum": "fault-free", "runs": 48 if q else 2000, "params": {"victim": None}, "chunk": 6 if q else 100},
+        {"stratum": "crash-client", "runs": 96 if q else 8000, "params": {"victim": "c"}, "chunk": 6 if q else 200},
+        {"stratum": "crash-runner", "runs": 240 if q else 16000, "params": {"victim": "r1"}, "chunk": 15 if q else 400},
+        {"stratum": "crash-recovery-task", "runs": 64 if q else 6000, "params": {"victim": "recovery"}, "chunk": 4 if q else 150},
+        {"stratum": "fault-free", "runs": 32 if q else 2000, "params": {"victim": None}, "chunk": 4 if q else 100},
+        {"stratum": "fault-free-stalled-worker", "runs": 80 if q else 4000, "params": {"victim": None, "stalled": True}, "chunk": 4 if q else 100},
     ]
 
 
@@ -110,6 +114,11 @@ def run(seed: int, params: dict, replay: dict | None = None) -> dict:
         # that body; recovery is made busy without any other fault by limits below normal latencies
         kind = ["recover-pending", "recover-running"][idx % 2]
         K = 1 + (idx // 2) % 40
+    elif params.get("stalled"):
+        # nothing dies: one live runner is merely slow to start what it claimed, so the pending-recovery
+        # service races with live owners (the invariant must hold at every step without any crash too)
+        kind = "stalled"
+        K = 0
     else:
         kind = rng.choice(["single", "par", "batch", "flat", "retry", "tree", "keyed"])
         K = 0
@@ -121,6 +130,9 @@ def run(seed: int, params: dict, replay: dict | None = None) -> dict:
         roots = [gen.gen_prog(rng, names, depth=0, p_fail=0.9, max_fail=2, excs=("retry",), work=(0.0, 0.02)) for _ in range(n_jobs)]
     elif victim == "recovery":
         roots = [gen.gen_prog(rng, names, depth=0, p_fail=0.0, work=(0.5, 1.0, 2.0)) for _ in range(rng.randint(4, 6))]
+    elif kind == "stalled":
+        roots = [gen.gen_prog(rng, names, depth=0, p_fail=0.0, work=(0.1, 0.5, 1.0)) for _ in range(rng.randint(6, 10))]
+        second_wave = [gen.gen_prog(rng, names, depth=0, p_fail=0.0, work=(0.1, 0.5)) for _ in range(rng.randint(6, 10))] if rng.random() < 0.4 else []
     else:
         roots = [gen.gen_prog(rng, names, depth=0, p_fail=0.0, work=(0.01, 0.05)) for _ in range(n_jobs)]
     schedule = replay.get("schedule") if replay else None
@@ -133,12 +145,37 @@ def run(seed: int, params: dict, replay: dict | None = None) -> dict:
             conf.update({"max_pending_seconds": 1.0, "max_threads": 1})
         else:
             conf.update({"runner_considered_dead_after_minutes": 0.004})
+    if kind == "stalled":
+        n_runners = 3
+        conf.update({"max_pending_seconds": rng.choice([0.3, 0.5]), "max_threads": rng.choice([2, 3, 4])})
     with Deployment(seed, "sqlite", n_runners, clients=["c", "z"], services=True, policy=policy, policy_arg=parg, schedule=schedule, max_steps=900_000, max_time=330.0, conf=conf) as d:
         sim = d.sim
         w = d.w
         if victim == "recovery" and kind == "recover-pending":
             # a stalled worker: r3's task threads start arbitrarily late, so what r3 claims stays PENDING
             sim.lazy_prefixes = ("r3/t",)
+        stalled_evts: list[Any] = []
+        stall: dict[str, Any] = {"n": 0, "wake_at": None, "mode": None, "countdown": None, "seen_pr": 0, "offset": 0}
+        if kind == "stalled":
+            from simkit.core import SimEvent
+
+            rng_stall = random.Random(f"{seed}:c03:stall")
+            lim_ = conf["max_pending_seconds"]
+
+            def start_delay(th: Any) -> float:
+                # r3 is slow to start what it claimed: the thread waits (virtual time) before its first statement;
+                # some stalls end by themselves, the others end in the middle of the next pending-recovery run
+                if th.name.startswith("r3/t") and rng_stall.random() < 0.8:
+                    sim.bump("probe.worker_start_stalled")
+                    ev = SimEvent()
+                    stalled_evts.append(ev)
+                    ev.wait(rng_stall.choice([1.5, 3.0, 8.0, 70.0]) * lim_ + rng_stall.uniform(0.0, 1.2))
+                return 0.0
+
+            sim.start_delay = start_delay
+            stall["wake_at"] = rng_stall.randint(1, 14)
+            stall["mode"] = rng_stall.choice(["after-first-transition", "after-first-transition", "nth-statement"])
+            stall["offset"] = rng_stall.randint(0, 3)
         d.register(simtasks.prog, max_retries=2)
         d.register(simtasks.keyed, running_concurrency=CC.KEYS, key_arguments=("key",), reroute_on_concurrency_control=True)
         accepted: list[str] = []
@@ -159,6 +196,27 @@ def run(seed: int, params: dict, replay: dict | None = None) -> dict:
         def hook(th: Any, kind_: str, detail: Any) -> None:
             nonlocal victim_actor
             if state["crashed_at"] is not None or kind_ != "sql":
+                return
+            if kind == "stalled":
+                # fault placement: the stalled workers come back inside the recovery run (between its scan and its transitions)
+                if th.kind == "t" and stalled_evts and in_recovery_body("recover_pending_invocations"):
+                    n_pr = sum(1 for e in w.tlog if e["status"] == "PENDING_RECOVERY")
+                    if stall["mode"] == "after-first-transition":
+                        # resume right after this recovery run has moved its first invocation
+                        if n_pr > stall["seen_pr"] and stall["countdown"] is None:
+                            stall["countdown"] = stall["offset"]
+                        if stall["countdown"] is not None:
+                            stall["countdown"] -= 1
+                        fire = stall["countdown"] is not None and stall["countdown"] < 0
+                    else:
+                        stall["n"] += 1
+                        fire = stall["n"] == stall["wake_at"]
+                    if fire:
+                        sim.bump("probe.stalled_workers_resumed_inside_recovery_run")
+                        for ev in stalled_evts:
+                            ev.set()
+                        stalled_evts.clear()
+                        stall.update({"n": 0, "countdown": None, "seen_pr": n_pr})
                 return
             if victim == "recovery":
                 want = "recover_pending_invocations" if kind == "recover-pending" else "recover_running_invocations"
@@ -184,11 +242,21 @@ def run(seed: int, params: dict, replay: dict | None = None) -> dict:
 
         def client() -> None:
             try:
-                if kind in ("single", "flat", "retry", "tree", "stop"):
+                if kind in ("single", "flat", "retry", "tree", "stop", "stalled"):
                     t = d.task("c", "prog")
                     for r in roots:
                         inv = t(r)
                         accepted.append(str(inv.invocation_id))
+                    if kind == "stalled" and second_wave:
+                        # a second wave around the next cron minute (the recovery services run once a minute)
+                        b = 60.0 - (sim.epoch % 60.0)
+                        if b < 8.0:
+                            b += 60.0
+                        sim.sleep(max(0.0, sim.epoch + b - 3.0 - sim.now))
+                        for r in second_wave:
+                            inv = t(r)
+                            accepted.append(str(inv.invocation_id))
+                            sim.sleep(0.4)
                 elif kind == "keyed":
                     t = d.task("c", "keyed")
                     for j in range(n_jobs + 1):
@@ -211,7 +279,7 @@ def run(seed: int, params: dict, replay: dict | None = None) -> dict:
             app = d.app("z")
             while not state["client_done"]:
                 sim.sleep(0.05)
-            deadline = sim.now + 240.0
+            deadline = sim.now + BUDGET_S
             while sim.now < deadline:
                 if accepted and all(app.orchestrator.get_invocation_status(i).is_final() for i in accepted):
                     # let history writers and re-queues settle
@@ -245,7 +313,11 @@ def run(seed: int, params: dict, replay: dict | None = None) -> dict:
                     st["probe.recovered_pending"] = st.get("probe.recovered_pending", 0) + 1
                 if e["status"] == "RUNNING_RECOVERY":
                     st["probe.recovered_running"] = st.get("probe.recovered_running", 0) + 1
+            n_lost = sum(1 for r_ in w.refused if r_["status"] in ("PENDING_RECOVERY", "RUNNING_RECOVERY"))
+            if n_lost:
+                st["probe.recovery_lost_race_with_live_owner"] = n_lost
             inflight = False
+            blocked_behind: list[str] = []
             # is a recovery core task itself held by the dead runner?  (its TASK-level running
             # concurrency then turns every later instance into CONCURRENCY_CONTROLLED_FINAL)
             blocked_service = {"PENDING": False, "RUNNING": False}
@@ -286,16 +358,28 @@ def run(seed: int, params: dict, replay: dict | None = None) -> dict:
                     cls = "recovery-task-held-by-dead-runner-blocks-recovery"
                 elif s in ("PENDING", "RUNNING") and dead_owner:
                     cls = "held-by-dead-runner-not-recovered"
+                elif s in AVAILABLE and queued and sum(1 for e in evs if e["status"] == "CONCURRENCY_CONTROLLED") >= 3:
+                    # alive and being polled, but concurrency-controlled over and over: it waits behind a
+                    # same-key invocation that is itself stranded (reported on its own)
+                    blocked_behind.append(inv)
+                    continue
                 elif s in AVAILABLE and queued:
                     cls = "queued-but-never-run"
                 else:
                     cls = "other"
+                fault_text = f"victim {victim} ({kind}) was killed before its statement #{K} {site} (last completed {last})" if crashed else f"nothing was killed (scenario {kind})"
                 viol.append(
                     {
                         "signature": f"C03/stranded/{cls}/status={s}/role={'r1' if victim == 'recovery' else victim}{'-in-' + kind if victim == 'recovery' else ''}",
-                        "message": f"{w.alias(inv)} was accepted but is not final 240 virtual seconds after the crash although r2 and the recovery services kept running: status={s}, queued={int(queued)}, owner={'dead runner' if dead_owner else o}; victim {victim} ({kind}) was killed before its statement #{K} {site} (last completed {last}); transitions: {[(e['status'], e['requester'][:8] if e['requester'] else None) for e in evs]}",
+                        "message": f"{w.alias(inv)} was accepted but is not final {int(BUDGET_S)} virtual seconds after submission / the crash although r2 and the recovery services kept running: status={s}, queued={int(queued)}, owner={'dead runner' if dead_owner else o}; {fault_text}; transitions: {[(e['status'], e['requester'][:8] if e['requester'] else None) for e in evs]}",
                     }
                 )
+            if blocked_behind:
+                st["probe.blocked_behind_stranded_same_key"] = len(blocked_behind)
+                if not viol:
+                    # nothing else is stranded: then the blocker is not an accepted invocation of this run -> report
+                    for inv in blocked_behind:
+                        viol.append({"signature": f"C03/stranded/concurrency-controlled-forever/role={victim}", "message": f"{w.alias(inv)} is re-queued by concurrency control over and over and never runs, and no other accepted invocation is stranded"})
             if crashed and any(True for inv in accepted):
                 # non-trivial: some accepted work was unfinished at the crash instant
                 unfinished = False
